@@ -649,7 +649,19 @@ func (cn *hcConn) writeRST(st *hcStream, code ErrCode) {
 }
 
 func (cn *hcConn) writeGoAway(last uint32, code ErrCode) {
-	cn.fr.WriteGoAway(last, code, nil)
+	// (other servers put an explanation into the debug data; a function of the
+	// frame's arguments, so that replay needs no extra draw)
+	var debug []byte
+	switch (int(last) + int(code) + len(cn.goaways)) % 3 {
+	case 1:
+		debug = []byte("graceful_shutdown")
+	case 2:
+		debug = bytes.Repeat([]byte{'x'}, 300)
+	}
+	if debug != nil {
+		vs.G.Inc("probe.goaway_with_debug_data")
+	}
+	cn.fr.WriteGoAway(last, code, debug)
 	cn.goaways = append(cn.goaways, &hcGoAway{last: last, code: code, endOff: cn.sc.WrittenBA()})
 	for _, st := range cn.order {
 		if st.id > last && !st.refused {
